@@ -22,6 +22,7 @@ from pyrtma.header import MessageHeader, TimeCodeMessageHeader
 from pyrtma.context import _get_core_defs as _real_get_core_defs
 
 from . import shadow as SH
+from .shadow import NoTracing
 from .standins import LinearSet, LinearDict, LinearCounter, NullLogger
 
 BACKEND = os.environ.get("VERIF_BACKEND", "shadow")
@@ -85,6 +86,11 @@ class FakeConn:
         self.fail_after = fail_after  # None: never fails; k: the (k+1)-th sendall and every later one raise
 
     def sendall(self, b):
+        # pure recording: no operation on (possibly symbolic) field values, so it runs outside the tracer
+        with NoTracing():
+            return self._sendall(b)
+
+    def _sendall(self, b):
         if self.closed:
             raise OSError(errno.EBADF, "Bad file descriptor")
         if self.fail_after is not None and self.ok_calls >= self.fail_after:
@@ -99,7 +105,29 @@ class FakeConn:
         elif isinstance(b, ctypes.Structure):
             self.calls.append(("P", b, _real_fields(b), ctypes.sizeof(b)))
         else:
-            self.calls.append(("P", b, None, len(b)))
+            self.calls.append(("P", b, None, None))  # length: plen(rec), computed by the oracle (may be symbolic)
+
+    # --- receive side: scripted by the harness (self.recv_script = list of "full" | ("short", k) | "reset")
+    recv_script = ()
+    recv_calls = 0
+
+    def recv_into(self, buf, n=0, flags=0):
+        if self.closed:
+            raise OSError(errno.EBADF, "Bad file descriptor")
+        # CPython socket.recv_into contract: negative size / size larger than the buffer -> ValueError
+        if n < 0:
+            raise ValueError("negative buffersize in recv_into")
+        cap = buffer_capacity(buf)
+        if n > cap:
+            raise ValueError("buffer too small for requested bytes")
+        i = self.recv_calls
+        self.recv_calls = i + 1
+        what = self.recv_script[i] if i < len(self.recv_script) else "full"
+        if what == "reset":
+            raise ConnectionResetError(errno.ECONNRESET, "Connection reset by peer")
+        if what == "full":
+            return n
+        return what[1]  # short read: the peer closed after k < n bytes
 
     def close(self):
         self.closed = True
@@ -139,6 +167,14 @@ class FakeConn:
             return False
 
 
+def buffer_capacity(buf):
+    if isinstance(buf, SH.PayloadBuf):
+        return 1024 ** 2
+    if buf is None or hasattr(buf, "_shadow_keys"):
+        return 10 ** 9  # header buffer stand-in: always requested with its exact size
+    return len(buf)
+
+
 def _real_fields(obj):
     out = {}
     for pname, ftype in SH.all_fields(type(obj)):
@@ -149,6 +185,10 @@ def _real_fields(obj):
             v = _real_fields(v)
         out[pname[1:]] = v
     return out
+
+
+def plen(rec):
+    return rec[3] if rec[3] is not None else len(rec[1])
 
 
 def pfield(rec, *path):
@@ -179,7 +219,13 @@ class PayloadSlice:
 
 
 def build(n, timecode=False, send_timing=True):
-    """manager with n client modules (accepted, not yet connected, mod_id 0). returns (mm, [modules])"""
+    """manager with n client modules (accepted, not yet connected, mod_id 0). returns (mm, [modules])
+    Everything built here is concrete, so it is built outside CrossHair's tracer (speed only)."""
+    with NoTracing():
+        return _build(n, timecode, send_timing)
+
+
+def _build(n, timecode, send_timing):
     H = header_class(timecode)
     mm = object.__new__(M.MessageManager)
     mm._keep_running = False
